@@ -111,11 +111,21 @@ func polyOf(v ssa.Value) *Poly {
 
 func polyOfD(v ssa.Value, depth int) *Poly {
 	p := newPoly()
+	orig := v
 	v = deref(v)
+	// a leaf that is reached through a transparent helper is context dependent (its meaning is
+	// relative to the call it was entered through): remember the OUTER value, which re-establishes
+	// the context whenever it is resolved again
+	leafValue := func() ssa.Value {
+		if plainDeref(orig) != v {
+			return orig
+		}
+		return v
+	}
 	if depth > 12 {
 		k := leafKey(v)
 		p.Terms[k] = 1
-		p.leafV[k] = v
+		p.leafV[k] = leafValue()
 		return p
 	}
 	if k, ok := constInt(v); ok {
@@ -157,8 +167,16 @@ func polyOfD(v ssa.Value, depth int) *Poly {
 	}
 	k := leafKey(v)
 	p.Terms[k] = 1
-	p.leafV[k] = v
+	p.leafV[k] = leafValue()
 	return p
+}
+
+// plainDeref: deref without looking through transparent helpers.
+func plainDeref(v ssa.Value) ssa.Value {
+	was := ht.enabled
+	ht.enabled = false
+	defer func() { ht.enabled = was }()
+	return deref(v)
 }
 
 func isIntType(t types.Type) bool {
